@@ -32,6 +32,7 @@ type Contract struct {
 	Requires    []*Clause
 	Ensures     []*Clause
 	Invariants  map[int][]*Clause
+	BackEdges   map[int][]*Clause // must hold whenever the loop goes round again (not assumed at the head)
 	Modifies    []Expr
 	ModSrc      []string
 	HasModifies bool
@@ -44,6 +45,7 @@ type Contract struct {
 	Props       []string // properties this function is verified for
 	Probes      []*Clause
 	Implements  string // key of an interface contract this function must refine
+	Reveal      []string
 	File        string
 	Line        int
 	PkgPath     string
@@ -57,6 +59,7 @@ type SpecFn struct {
 	Body     Expr
 	Src      string
 	Uninterp bool
+	Opaque   bool // has a body, but is handed to the solver uninterpreted unless a contract reveals it
 	Imports  map[string]string
 	PkgPath  string
 	File     string
@@ -96,7 +99,7 @@ func NewContractSet() *ContractSet {
 
 var labelRe = regexp.MustCompile(`^(\{[A-Z0-9, ]+\}\s*)?([A-Za-z][A-Za-z0-9_.\-]*):(\s|$)`)
 var propsRe = regexp.MustCompile(`^\{([A-Z0-9, ]+)\}\s*`)
-var keywordRe = regexp.MustCompile(`^(import|ghost|uninterp|spec|func|iface|requires|guard|ensures|modifies|loop|pure|trusted|noinline|safe|fresh|lemma|params|results|props|probe|implements)\b`)
+var keywordRe = regexp.MustCompile(`^(opaque|reveal|import|ghost|uninterp|spec|func|iface|requires|guard|ensures|modifies|loop|pure|trusted|noinline|safe|fresh|lemma|params|results|props|probe|implements)\b`)
 
 // LoadFile parses one contract file. pkgPath is the import path of the package the file sits in
 // ("" for library spec files, where names must be qualified). trusted marks every contract assumed.
@@ -156,6 +159,24 @@ func (cs *ContractSet) LoadFile(file, pkgPath string, trusted bool) error {
 				return fail(it, "ghost wants: name type")
 			}
 			cs.Ghosts[parts[0]] = &GhostVar{Name: parts[0], Type: parts[1], Imports: imports, PkgPath: pkgPath}
+		case "opaque":
+			if !strings.HasPrefix(rest, "spec ") {
+				return fail(it, "opaque wants: opaque spec name(...) T = expr")
+			}
+			sf, err := parseSpecFn(strings.TrimSpace(rest[5:]), false)
+			if err != nil {
+				return fail(it, "%v", err)
+			}
+			sf.Opaque = true
+			sf.Imports = imports
+			sf.PkgPath = pkgPath
+			sf.File = file
+			cs.Specs[sf.Name] = sf
+		case "reveal":
+			if cur == nil {
+				return fail(it, "reveal outside func")
+			}
+			cur.Reveal = append(cur.Reveal, strings.Fields(strings.ReplaceAll(rest, ",", " "))...)
 		case "uninterp", "spec":
 			sf, err := parseSpecFn(rest, kw == "uninterp")
 			if err != nil {
@@ -178,7 +199,7 @@ func (cs *ContractSet) LoadFile(file, pkgPath string, trusted bool) error {
 			}
 			key := resolveFuncName(name, pkgPath, imports)
 			cur = &Contract{Kind: kw, Key: key, Display: name, ParamNames: params, ResultNames: results,
-				Invariants: map[int][]*Clause{}, Trusted: trusted || kw == "iface", File: file, Line: it.line, PkgPath: pkgPath, Imports: imports}
+				Invariants: map[int][]*Clause{}, BackEdges: map[int][]*Clause{}, Trusted: trusted || kw == "iface", File: file, Line: it.line, PkgPath: pkgPath, Imports: imports}
 			if old, dup := cs.ByKey[key]; dup {
 				return fail(it, "duplicate contract for %s (first at %s:%d)", key, old.File, old.Line)
 			}
@@ -206,8 +227,8 @@ func (cs *ContractSet) LoadFile(file, pkgPath string, trusted bool) error {
 				return fail(it, "loop outside func")
 			}
 			parts := strings.SplitN(rest, " ", 3)
-			if len(parts) < 3 || parts[1] != "invariant" {
-				return fail(it, "loop wants: N invariant expr")
+			if len(parts) < 3 || (parts[1] != "invariant" && parts[1] != "backedge") {
+				return fail(it, "loop wants: N invariant|backedge expr")
 			}
 			n, err := strconv.Atoi(parts[0])
 			if err != nil {
@@ -218,7 +239,12 @@ func (cs *ContractSet) LoadFile(file, pkgPath string, trusted bool) error {
 				return fail(it, "%v", err)
 			}
 			c.Loop = n
-			cur.Invariants[n] = append(cur.Invariants[n], c)
+			if parts[1] == "backedge" {
+				c.Kind = "backedge"
+				cur.BackEdges[n] = append(cur.BackEdges[n], c)
+			} else {
+				cur.Invariants[n] = append(cur.Invariants[n], c)
+			}
 		case "modifies":
 			if cur == nil {
 				return fail(it, "modifies outside func")
